@@ -1,21 +1,22 @@
 #!/bin/sh
 # seed_regress.sh [seed-ids...] : re-apply every kept seeded change to a scratch COPY of /repo and re-run the
-# checks named in its meta.json ("property"); a kept seed that no check reports any more is a regression of the
-# verification.  Results: /tmp/xv_seedreg/summary.txt (one line per seed).
-OUT=/tmp/xv_seedreg; SCR=$OUT/repo
+# checks named in its meta.json ("property") from a SNAPSHOT of /verif; a kept seed that no check reports any more
+# is a regression of the verification.  Results: /tmp/xv_seedreg/summary.txt (one line per seed).
+OUT=/tmp/xv_seedreg; SCR=$OUT/repo; V=$OUT/verif
 mkdir -p $OUT; : > $OUT/summary.txt
-cd /verif
+rm -rf $V; rsync -a --exclude .git --exclude out --exclude evidence /verif/ $V/
+cd $V
 IDS="$@"; [ -z "$IDS" ] && IDS=$(ls seeded)
 for S in $IDS; do
   P=$(python3 -c "import json;print(json.load(open('seeded/$S/meta.json'))['property'])")
   rm -rf $SCR; rsync -a --exclude .git /repo/ $SCR/
-  if ! (cd $SCR && patch -p1 -s --dry-run < /verif/seeded/$S/patch.diff >/dev/null 2>&1); then
+  if ! (cd $SCR && patch -p1 -s --dry-run < $V/seeded/$S/patch.diff >/dev/null 2>&1); then
     echo "$S $P PATCH-DOES-NOT-APPLY" >> $OUT/summary.txt; continue
   fi
-  (cd $SCR && patch -p1 -s < /verif/seeded/$S/patch.diff)
+  (cd $SCR && patch -p1 -s < $V/seeded/$S/patch.diff)
   XV_REPO=$SCR XV_OUT=$OUT ./check $P --tier quick > $OUT/$S.log 2>&1
   rc=$?
   echo "$S $P rc=$rc violations=$(grep -c '^VIOLATION' $OUT/$S.log)" >> $OUT/summary.txt
 done
-rm -rf $SCR
+rm -rf $SCR $V
 echo DONE >> $OUT/summary.txt
